@@ -8,5 +8,6 @@ type Profile struct {
 
 var Profiles = map[string]Profile{
 	"oracle": {Mods: []string{"bank", "oracle", "distr"}, Run: OracleProfile},
+	"bankvm": {Mods: []string{"bank", "vesting", "cvm", "staking"}, Run: BankVMProfile},
 	"gov":    {Mods: []string{"bank", "gov", "cert", "staking"}, Run: GovProfile},
 }
